@@ -31,6 +31,16 @@ fn a3() -> Address {
 fn a4() -> Address {
     eoa(11)
 }
+fn a5() -> Address {
+    eoa(12)
+}
+fn a6() -> Address {
+    eoa(13)
+}
+/// libraries reached by DELEGATECALL / CALLCODE from a delegated account's code (mutilated in the
+/// halting reference, like the delegate targets)
+const L_CREATE2: u64 = 41;
+const L_CREATE: u64 = 42;
 const T_CREATE: u64 = 30;
 const T_CREATE2: u64 = 31;
 const F_CREATE2: u64 = 5;
@@ -42,17 +52,29 @@ pub fn world(designators: bool, mutilated: bool) -> MemDb {
     for i in 0..2 {
         db.fund(eoa(i), U256::from(10 * ETHER), 0);
     }
-    for a in [a1(), a2(), a3(), a4()] {
+    for a in [a1(), a2(), a3(), a4(), a5(), a6()] {
         db.fund(a, U256::from(10 * ETHER), 0);
     }
     let init = kit::vault_init();
     if mutilated {
         db.deploy(contract(T_CREATE), kit::factory_with_opcode(&init, false, UNDEFINED_OPCODE));
         db.deploy(contract(T_CREATE2), kit::factory_with_opcode(&init, true, UNDEFINED_OPCODE));
+        db.deploy(contract(L_CREATE), kit::factory_with_opcode(&init, false, UNDEFINED_OPCODE));
+        db.deploy(contract(L_CREATE2), kit::factory_with_opcode(&init, true, UNDEFINED_OPCODE));
     } else {
         db.deploy(contract(T_CREATE), kit::factory_create(&init));
         db.deploy(contract(T_CREATE2), kit::factory(&init));
+        db.deploy(contract(L_CREATE), kit::factory_create(&init));
+        db.deploy(contract(L_CREATE2), kit::factory(&init));
     }
+    // the code account differs from the context account: a delegated account whose delegate code
+    // borrows a creating library (context = the delegated account: must halt) ...
+    db.deploy(contract(43), kit::relay(contract(L_CREATE2), kit::CallKind::DelegateCall, false, true));
+    db.deploy(contract(44), kit::relay(contract(L_CREATE), kit::CallKind::CallCode, false, true));
+    // ... and an ordinary contract that borrows the code *of a delegated account* (context = the
+    // ordinary contract: must not halt)
+    db.deploy(contract(45), kit::relay(a2(), kit::CallKind::DelegateCall, false, true));
+    db.deploy(contract(46), kit::relay(a1(), kit::CallKind::CallCode, false, true));
     db.deploy(contract(F_CREATE2), kit::factory(&init));
     db.deploy(contract(F_CREATE), kit::factory_create(&init));
     db.deploy(contract(32), kit::relay(contract(F_CREATE2), kit::CallKind::Call, false, true));
@@ -66,6 +88,8 @@ pub fn world(designators: bool, mutilated: bool) -> MemDb {
         db.delegate(a1(), contract(T_CREATE));
         db.delegate(a2(), contract(T_CREATE2));
         db.delegate(a3(), contract(36));
+        db.delegate(a5(), contract(43));
+        db.delegate(a6(), contract(44));
     }
     db
 }
@@ -100,6 +124,19 @@ pub fn programs() -> Vec<Program> {
         p("nested-delegated-create2-then-revert", vec![("e0>relay.call(A2)+revert", tx(eoa(0), 0, Some(contract(38)), 0, salt.clone()))], true, SpecId::BYZANTIUM),
         p("delegated-eoa-calls-ordinary-factory", vec![("e0>A3(->relay.call(F))", tx(eoa(0), 0, Some(a3()), 0, salt.clone()))], false, SpecId::BYZANTIUM),
         p("ordinary-delegatecalls-target-code", vec![("e0>relay.delegatecall(T.create2)", tx(eoa(0), 0, Some(contract(37)), 0, salt.clone()))], false, SpecId::BYZANTIUM),
+        p("delegated-eoa-delegatecalls-creating-library", vec![("e0>A5(->relay.delegatecall(L.create2))", tx(eoa(0), 0, Some(a5()), 0, salt.clone()))], true, SpecId::BYZANTIUM),
+        p("delegated-eoa-callcodes-creating-library", vec![("e0>A6(->relay.callcode(L.create))", tx(eoa(0), 0, Some(a6()), 0, Default::default()))], true, SpecId::BYZANTIUM),
+        p("ordinary-delegatecalls-delegated-eoa", vec![("e0>relay.delegatecall(A2)", tx(eoa(0), 0, Some(contract(45)), 0, salt.clone()))], false, SpecId::BYZANTIUM),
+        p("ordinary-callcodes-delegated-eoa", vec![("e0>relay.callcode(A1)", tx(eoa(0), 0, Some(contract(46)), 0, Default::default()))], false, SpecId::BYZANTIUM),
+        p(
+            "delegated-library-create-then-own-tx",
+            vec![
+                ("e0>A5(->relay.delegatecall(L.create2))", tx(eoa(0), 0, Some(a5()), 0, salt.clone())),
+                ("A5>e1", transfer(a5(), 0, eoa(1), 5)),
+            ],
+            true,
+            SpecId::PRAGUE,
+        ),
         p(
             "delegated-create-then-own-tx",
             vec![
